@@ -166,3 +166,40 @@ func init() {
 		return UF("ufb_ak_listed", SBool, f, k)
 	}
 }
+
+func init() {
+	// reSel(r, s): does regex value r select the line content s
+	// (Noop: always; Default: RE2 match; Invert: no match; otherwise never).
+	specDefs["reSel"] = func(env *SpecEnv, args []Val) Val {
+		rv := args[0]
+		if pv, ok := rv.(*PtrV); ok {
+			rv = env.deref(pv)
+		}
+		sv, ok := rv.(*StructV)
+		if !ok {
+			env.errf("reSel: first argument is not a Regex (%T)", rv)
+			return TFalse
+		}
+		subj, ok := env.scalar(args[1])
+		if !ok {
+			env.errf("reSel: second argument is not a string")
+			return TFalse
+		}
+		flags := env.selectField(sv, "flags", nil)
+		fl, _ := flags.(*SliceV)
+		if fl == nil || fl.Obj == nil {
+			return TFalse
+		}
+		av := env.x.E.objVal(env.cur(), fl.Obj).(*ArrV)
+		f0 := Select(av.T, fl.Off)
+		pat := Var("nopattern", SString)
+		if rp, ok := env.selectField(sv, "re", nil).(*PtrV); ok && rp.Obj != nil {
+			if a, ok := env.deref(rp).(*AbsV); ok {
+				pat = a.F["pattern"].(*Term)
+			}
+		}
+		m := UF("re_match", SBool, pat, subj)
+		// Flag values: Default=1 Invert=2 Noop=3
+		return Ite(Eq(f0, Int(3)), TTrue, Ite(Eq(f0, Int(1)), m, Ite(Eq(f0, Int(2)), Not(m), TFalse)))
+	}
+}
